@@ -1,6 +1,7 @@
 package tea
 
 import (
+	"bytes"
 	"context"
 	"fmt"
 	"io"
@@ -611,7 +612,40 @@ var (
 	mouseSGRRegex = regexp.MustCompile(`^(\d+);(\d+);(\d+)([Mm])`)
 )
 
+// incompleteCSIRe matches a CSI sequence that has not been terminated yet.
+var incompleteCSIRe = regexp.MustCompile(`^\x1b\x1b?\[[\x30-\x3f]*[\x20-\x2f]*$`)
+
+// mayBeIncomplete reports whether b, which reaches the end of a completely
+// filled read buffer, may be the beginning of an event whose remaining bytes
+// have not been read yet.
+func mayBeIncomplete(b []byte) bool {
+	if b[0] != '\x1b' {
+		return !utf8.FullRune(b)
+	}
+	if len(b) > 1 && !utf8.FullRune(b[1:]) {
+		return true
+	}
+	if incompleteCSIRe.Match(b) {
+		return true
+	}
+	if len(b) < 6 && bytes.HasPrefix(b, []byte("\x1b[M")) { // X10 mouse
+		return true
+	}
+	for seq := range extSequences {
+		if len(seq) > len(b) && strings.HasPrefix(seq, string(b)) {
+			return true
+		}
+	}
+	return false
+}
+
 func detectOneMsg(b []byte, canHaveMoreData bool) (w int, msg Msg) {
+	if canHaveMoreData && mayBeIncomplete(b) {
+		// The buffer was filled completely and ends in what may be the
+		// first part of a longer event. Wait for the rest.
+		return 0, nil
+	}
+
 	// Detect mouse events.
 	// X10 mouse events have a length of 6 bytes
 	const mouseEventX10Len = 6
@@ -683,7 +717,7 @@ func detectOneMsg(b []byte, canHaveMoreData bool) (w int, msg Msg) {
 			break
 		}
 	}
-	if i >= len(b) && canHaveMoreData {
+	if canHaveMoreData && (i >= len(b) || !utf8.FullRune(b[i:])) {
 		// We have encountered the end of the input buffer. Alas, we can't
 		// be sure whether the data in the remainder of the buffer is
 		// complete (maybe there was a short read). Instead of sending anything
